@@ -41,6 +41,14 @@ type Workload struct {
 	// Store: "" = cache.LRU(); "user" = a Store of the harness's own handed in
 	// through Config.WithStore (userStore below).
 	Store string `json:"store,omitempty"`
+	// BigLimit, when not 0, is the limit handed to cache.New (up to MaxInt64)
+	// and Unit the factor of the sizes: a Put of S > 0 stores a value of size
+	// S*Unit + (K+S)%3.  Limit then only steers the generator.  The generator
+	// constructs Unit so that no sum the cache forms (size of the present
+	// entries + size of the new value) leaves int64 in any schedule; see
+	// bigUnit.  Not for the length-sized value kind.
+	BigLimit int64 `json:"bigLimit,omitempty"`
+	Unit     int64 `json:"unit,omitempty"`
 }
 
 // scale is lenScale when the values are strings sized by their length.
@@ -52,11 +60,19 @@ func (w Workload) scale() int64 {
 }
 
 // effLimit is the limit the cache is built with.
-func (w Workload) effLimit() int64 { return int64(w.Limit) * w.scale() }
+func (w Workload) effLimit() int64 {
+	if w.BigLimit != 0 {
+		return w.BigLimit
+	}
+	return int64(w.Limit) * w.scale()
+}
 
 // valFor is the value stored by call i of goroutine g.
 func (w Workload) valFor(g, i int, op WOp) Val {
 	v := Val{ID: 1000*(g+1) + i, Size: int64(op.S) * w.scale()}
+	if w.BigLimit != 0 && op.S > 0 {
+		v.Size = int64(op.S)*w.Unit + int64((op.K+op.S)%3)
+	}
 	if w.scale() > 1 && v.Size == 0 {
 		v.ID = noID // the empty string
 	}
@@ -296,6 +312,9 @@ func executeG[K comparable, V any](w Workload, stamps bool, kk keyKit[K], vt val
 		}
 	}
 
+	if w.BigLimit != 0 && vt.scale != 1 {
+		return cc, "VK-INFRA a workload with bigLimit needs a value kind whose size is not its length"
+	}
 	cfg := cache.LRU[K, V]()
 	var store *userStore[K, V]
 	if w.Store == "user" {
